@@ -45,7 +45,7 @@ func main() {
 	pkgsFlag := fs.String("pkgs", "./...", "package patterns (comma separated)")
 	_ = fs.Parse(os.Args[2:])
 
-	opts := Options{Verbose: *verbose, Jobs: *jobs}
+	opts := Options{Verbose: *verbose, Jobs: *jobs, Keep: *keep}
 	opts.TimeoutS = 10
 	if *tier == "thorough" {
 		opts.TimeoutS = 60
@@ -330,7 +330,34 @@ func (e *Engine) background(used map[string]bool) []*Term {
 			Forall([]*Term{a}, Not(lt(a, e.strLit("")))),
 		)
 	}
-	ax = append(ax, e.axioms...)
+	if used["mod"] && e.withLemmas {
+		// arithmetic lemmas (valid in integer arithmetic; they only help instantiation)
+		a := &Term{op: "const", name: "ma", sort: SInt}
+		c := &Term{op: "const", name: "mc", sort: SInt}
+		pat := func(body *Term, p *Term) *Term {
+			return &Term{op: "!", args: []*Term{body, {op: ":pattern", sort: SBool}, {op: "(" + p.String() + ")", sort: SBool}}, sort: SBool}
+		}
+		m := mk("mod", SInt, a, c)
+		ax = append(ax,
+			&Term{op: "forall", bound: []*Term{a, c}, args: []*Term{pat(Implies(And(Le(IntLit(0), a), Lt(a, c)), mk("=", SBool, m, a)), m)}, sort: SBool},
+			&Term{op: "forall", bound: []*Term{a, c}, args: []*Term{pat(Implies(And(Lt(IntLit(0), c), Le(c, a), Lt(a, Add(c, c))), mk("=", SBool, m, Sub(a, c))), m)}, sort: SBool},
+		)
+		b := &Term{op: "const", name: "mb", sort: SInt}
+		mb := mk("mod", SInt, b, c)
+		body := Implies(And(Le(IntLit(0), a), Lt(a, b), Lt(Sub(b, a), c)), Not(mk("=", SBool, m, mb)))
+		ax = append(ax, &Term{op: "forall", bound: []*Term{a, b, c}, args: []*Term{{op: "!", args: []*Term{body, {op: ":pattern", sort: SBool}, {op: "(" + m.String() + " " + mb.String() + ")", sort: SBool}}, sort: SBool}}, sort: SBool})
+	}
+	// user axioms: only those that mention an uninterpreted function used by the query
+	for _, a := range e.axioms {
+		syms := map[string]bool{}
+		collectSyms(a, map[string]bool{}, syms)
+		for s := range syms {
+			if strings.HasPrefix(s, "fn_") && used[s] {
+				ax = append(ax, a)
+				break
+			}
+		}
+	}
 	return ax
 }
 
@@ -342,14 +369,27 @@ func (e *Engine) buildQuery(pc []*Term, goal *Term, model bool) string {
 	if goal != nil {
 		collectSyms(goal, map[string]bool{}, used)
 	}
-	for _, a := range e.axioms {
-		collectSyms(a, map[string]bool{}, used)
-	}
 	ax := e.background(used)
-	return e.sy.Query(ax, pc, goal, model)
+	q := e.sy.Query(ax, pc, goal, model)
+	if used["mod"] {
+		e.withLemmas = true
+		q2 := e.sy.Query(e.background(used), pc, goal, model)
+		e.withLemmas = false
+		q += variantSep + q2
+	}
+	return q
 }
 
+// queries may carry a second variant (with arithmetic lemmas) after this separator
+const variantSep = "\n;;;; VARIANT ;;;;\n"
+
 func (e *Engine) solveAll(obs []*Obligation, stats *SolverStats) {
+	tStart := time.Now()
+	defer func() {
+		if e.opts.Verbose {
+			fmt.Fprintf(os.Stderr, "solveAll: %d obligations in %.1fs\n", len(obs), time.Since(tStart).Seconds())
+		}
+	}()
 	type job struct{ o *Obligation }
 	// build queries sequentially (symbol table is not concurrent), dedupe identical queries
 	cache := map[string][]*Obligation{}
@@ -367,10 +407,36 @@ func (e *Engine) solveAll(obs []*Obligation, stats *SolverStats) {
 			continue
 		}
 		o.Query = e.buildQuery(o.PC, o.Goal, true)
+		if o.Goal != nil && o.Goal.op == "and" && hasQuantifier(o.Goal) {
+			// quantified conjunctions are proved conjunct by conjunct
+			for _, c := range o.Goal.args {
+				o.parts = append(o.parts, e.buildQuery(o.PC, c, true))
+			}
+		}
+		if o.PCUsing != nil {
+			o.queryU = e.buildQuery(o.PCUsing, o.Goal, true)
+			if len(o.parts) > 0 {
+				for _, c := range o.Goal.args {
+					o.partsU = append(o.partsU, e.buildQuery(o.PCUsing, c, true))
+				}
+			}
+		}
 		if _, ok := cache[o.Query]; !ok {
 			order = append(order, o.Query)
 		}
 		cache[o.Query] = append(cache[o.Query], o)
+	}
+	if e.opts.Keep {
+		var idx strings.Builder
+		for _, q := range order {
+			for _, o := range cache[q] {
+				fmt.Fprintf(&idx, "%x %s path=%v\n", hashString(q), o.Name, o.Path)
+			}
+		}
+		os.WriteFile(filepath.Join(e.opts.WorkDir, "INDEX.txt"), []byte(idx.String()), 0o644)
+	}
+	if e.opts.Verbose {
+		fmt.Fprintf(os.Stderr, "queries built: %d distinct in %.1fs\n", len(order), time.Since(tStart).Seconds())
 	}
 	jobs := e.opts.Jobs
 	if jobs <= 0 {
@@ -383,14 +449,67 @@ func (e *Engine) solveAll(obs []*Obligation, stats *SolverStats) {
 		go func() {
 			defer wg.Done()
 			for q := range ch {
+			  func() {
 				group := cache[q]
 				first := group[0]
+				tq := time.Now()
+				defer func(name string) {
+					if e.opts.Verbose && time.Since(tq).Seconds() > 2.5 {
+						fmt.Fprintf(os.Stderr, "slow: %.1fs %s\n", time.Since(tq).Seconds(), name)
+					}
+				}(first.Name)
 				name := fmt.Sprintf("%x", hashString(q))
 				to := e.opts.TimeoutS
 				if first.Kind == "reach" {
 					to = 2 // unknown is an acceptable answer for reachability
 				}
-				res := Solve(e.opts.WorkDir, name, q, to, stats)
+				var res SolveResult
+				solveParts := func(parts []string, to int) SolveResult {
+					results := make([]SolveResult, len(parts))
+					var pwg sync.WaitGroup
+					for i, pq := range parts {
+						pwg.Add(1)
+						go func(i int, pq string) {
+							defer pwg.Done()
+							results[i] = SolveHint(e.opts.WorkDir, fmt.Sprintf("%x", hashString(pq)), pq, to, stats, first.Name+"#part")
+						}(i, pq)
+					}
+					pwg.Wait()
+					res := SolveResult{Status: "unsat", Solver: "split"}
+					for _, pr := range results {
+						if pr.Seconds > res.Seconds {
+							res.Seconds = pr.Seconds
+						}
+						if pr.Status != "unsat" {
+							return pr
+						}
+						res.Solver = pr.Solver + "(split)"
+					}
+					return res
+				}
+				// hidden-assumption attempt first (sound: fewer assumptions)
+				if first.queryU != "" {
+					if len(first.partsU) > 0 {
+						res = solveParts(first.partsU, to)
+					} else {
+						res = SolveHint(e.opts.WorkDir, name+"u", first.queryU, to, stats, first.Name+"#u")
+					}
+					if res.Status != "unsat" && e.opts.Verbose {
+						fmt.Fprintf(os.Stderr, "using-attempt failed (%s) for %s path=%v\n", res.Status, first.Name, first.Path)
+					}
+					if res.Status == "unsat" {
+						res.Solver += "(using)"
+						for _, o := range group {
+							o.Result = res
+						}
+						return
+					}
+				}
+				if len(first.parts) > 0 {
+					res = solveParts(first.parts, to)
+				} else {
+					res = SolveHint(e.opts.WorkDir, name, q, to, stats, first.Name)
+				}
 				if first.Kind == "reach" && res.Status == "unsat" {
 					// try alternative paths to the same return
 					for _, pc := range first.altPCs {
@@ -405,6 +524,7 @@ func (e *Engine) solveAll(obs []*Obligation, stats *SolverStats) {
 				for _, o := range group {
 					o.Result = res
 				}
+			  }()
 			}
 		}()
 	}
